@@ -298,6 +298,25 @@ class Functor(pg_object.Object, utils.Functor):
       else:
         self._specified_args.add(arg_name)
 
+  def _sym_rebind(
+      self, path_value_pairs: Dict[utils.KeyPath, Any]
+  ) -> List[base.FieldUpdate]:
+    """Rebinds arguments, which are user specified from then on."""
+    updates = super()._sym_rebind(path_value_pairs)
+    # An argument that is rebound to the value it already shows (e.g. its
+    # filled-in default) produces no field update, yet the user specified it.
+    for path, value in path_value_pairs.items():
+      if len(path) == 1 and pg_typing.MISSING_VALUE != value:
+        self._specified_args.add(str(path))
+    return updates
+
+  def __setattr__(self, name: str, value: Any) -> None:
+    """Binds an argument by attribute assignment."""
+    super().__setattr__(name, value)
+    if (not name.startswith('_') and pg_typing.MISSING_VALUE != value
+        and self.__class__.__schema__.get_field(name)):
+      self._specified_args.add(name)
+
   def __delattr__(self, name: str) -> None:
     """Discard a previously bound argument and reset to its default value."""
     del self._sym_attributes[name]
